@@ -729,6 +729,16 @@ func (la *LockAnalysis) findValueRefs(fns []*FuncNode) {
 				}
 			case *ast.CallExpr:
 				callFuns[ast.Unparen(x.Fun)] = true
+				// a named function handed to a synchronous callee outside the repository
+				// (slices.BinarySearchFunc(xs, v, cmp)) runs at this call site, like a
+				// literal in the same position: its callers are known
+				if la.syncExternalCall(fn, x) {
+					for _, a := range x.Args {
+						if id, g := la.funcValueArg(fn, a); g != nil {
+							callFuns[id] = true
+						}
+					}
+				}
 			case *ast.SelectorExpr:
 				isCall := callFuns[x]
 				callFuns[x.Sel] = true
@@ -1542,7 +1552,63 @@ func (bc *bodyCtx) call(call *ast.CallExpr, st *lockState) {
 	for _, l := range lits {
 		bc.litArg(call, callees, l.idx, l.lit, st)
 	}
+	if la.syncExternalCall(bc.fn, call) {
+		for _, a := range call.Args {
+			_, g := la.funcValueArg(bc.fn, a)
+			if g == nil {
+				continue
+			}
+			sum := la.calleeSummary(g)
+			if la.report {
+				la.callers[g] = append(la.callers[g], callerSite{Caller: bc.fn, Pos: call.Pos(), Held: st.clone()})
+			}
+			for k, ws := range sum.Requires {
+				if len(ws) == 0 || st.holdsClass(k.Class, k.Mode) {
+					continue
+				}
+				bc.require(k, call.Pos(), &reqWitness{Pos: call.Pos(), What: "hands " + g.Name + " to a synchronous callee", Callee: g, Fn: bc.fn}, st)
+			}
+		}
+	}
 	bc.callEffects(call, st, false)
+}
+
+// syncExternalCall: the callee is a function outside the repository that is not known to
+// defer its callbacks.
+func (la *LockAnalysis) syncExternalCall(fn *FuncNode, call *ast.CallExpr) bool {
+	if len(la.calleeNodes(fn, call)) != 0 {
+		return false
+	}
+	f, ok := Callee(fn, call).(*types.Func)
+	return ok && !asyncCallees[FuncIDFull(f)]
+}
+
+// funcValueArg: the argument names a plain (receiver-less) function of the repository,
+// possibly instantiated (cmp[R]); returns the identifier that names it.
+func (la *LockAnalysis) funcValueArg(fn *FuncNode, a ast.Expr) (*ast.Ident, *FuncNode) {
+	a = ast.Unparen(a)
+	switch x := a.(type) {
+	case *ast.IndexExpr:
+		a = ast.Unparen(x.X)
+	case *ast.IndexListExpr:
+		a = ast.Unparen(x.X)
+	}
+	id, ok := a.(*ast.Ident)
+	if !ok {
+		return nil, nil
+	}
+	f, ok := fn.Pkg.TypesInfo.Uses[id].(*types.Func)
+	if !ok {
+		return nil, nil
+	}
+	if sig, _ := f.Type().(*types.Signature); sig == nil || sig.Recv() != nil {
+		return nil, nil
+	}
+	g := la.P.ByObj[f.Origin()]
+	if g == nil || g.Body == nil {
+		return nil, nil
+	}
+	return id, g
 }
 
 // inlineLit analyses an immediately invoked literal with the current state and
